@@ -62,7 +62,16 @@ pub fn gen_session(seed: u64, run: u64, thorough: bool) -> Session {
         let nops = rng.range(2, 9);
         for _ in 0..nops {
             let uri = rng.pick(&open).clone();
-            match rng.below(12) {
+            match rng.below(13) {
+                12 => {
+                    // a file the client has not opened changes on disk; the editor tells the server
+                    let (text, _) = gen_module(&mut rng, &[]);
+                    ops.push(PlannedOp::tagged(Op::Disk(crate::lsp::DiskOp::Write { path: "src/c.gleam".into(), text }), "disk.unopened_file_written"));
+                    ops.push(PlannedOp::tagged(
+                        Op::Watched { changes: vec![(uri_for(&root, "src/c.gleam"), *rng.pick(&[1u32, 2]))] },
+                        "didChangeWatchedFiles",
+                    ));
+                }
                 0..=4 => {
                     // a burst of didChange (valid edits only)
                     for _ in 0..rng.range(1, 3) {
@@ -227,6 +236,9 @@ pub fn check(s: &Session, h: &History, stats: &mut Stats) -> Option<Violation> {
     let mut models: BTreeMap<String, DocModel> = BTreeMap::new();
     let mut order: Vec<String> = Vec::new();
     let mut at_version: Vec<(usize, Vec<(String, String)>)> = Vec::new();
+    // disk writes and watched-file notifications seen so far (they change what the server knows
+    // about files the client has not opened); part of a request's "version"
+    let mut disk_ops: Vec<usize> = Vec::new();
     let mut open_now: BTreeMap<String, bool> = BTreeMap::new();
     for (i, p) in s.ops.iter().enumerate() {
         match &p.op {
@@ -249,8 +261,10 @@ pub fn check(s: &Session, h: &History, stats: &mut Stats) -> Option<Violation> {
                     }
                 }
             }
+            Op::Disk(_) | Op::Watched { .. } => disk_ops.push(i),
             Op::Request { .. } => {
-                let v = order.iter().map(|u| (u.clone(), models[u].text.clone())).collect();
+                let mut v: Vec<(String, String)> = order.iter().map(|u| (u.clone(), models[u].text.clone())).collect();
+                v.push(("#disk_ops".to_string(), disk_ops.len().to_string()));
                 at_version.push((i, v));
             }
             _ => {}
@@ -307,7 +321,13 @@ pub fn check(s: &Session, h: &History, stats: &mut Stats) -> Option<Violation> {
             let root_uri = format!("file://{}", s.root);
             let mut ops = preamble(Some(&root_uri));
             for (u, t) in version {
-                ops.push(PlannedOp::new(Op::Open { uri: u.clone(), text: t.clone() }));
+                if u == "#disk_ops" {
+                    for k in disk_ops.iter().take(t.parse::<usize>().unwrap_or(0)) {
+                        ops.push(PlannedOp::new(s.ops[*k].op.clone()));
+                    }
+                } else {
+                    ops.push(PlannedOp::new(Op::Open { uri: u.clone(), text: t.clone() }));
+                }
             }
             ops.push(PlannedOp::new(Op::Barrier));
             let mut ids = Vec::new();
@@ -353,7 +373,13 @@ pub fn check(s: &Session, h: &History, stats: &mut Stats) -> Option<Violation> {
                 let root_uri = format!("file://{}", s.root);
                 let mut ops = preamble(Some(&root_uri));
                 for (u, t) in v2 {
-                    ops.push(PlannedOp::new(Op::Open { uri: u.clone(), text: t.clone() }));
+                    if u == "#disk_ops" {
+                        for k in disk_ops.iter().take(t.parse::<usize>().unwrap_or(0)) {
+                            ops.push(PlannedOp::new(s.ops[*k].op.clone()));
+                        }
+                    } else {
+                        ops.push(PlannedOp::new(Op::Open { uri: u.clone(), text: t.clone() }));
+                    }
                 }
                 ops.push(PlannedOp::new(Op::Barrier));
                 ops.push(PlannedOp::new(s.ops[reqs[k]].op.clone()));
